@@ -8,8 +8,10 @@
 mod crash;
 mod exec;
 mod fault;
+mod golden;
 mod iohook;
 mod parse;
+mod procs;
 mod profiles;
 mod rec;
 mod sched;
@@ -125,6 +127,9 @@ fn main() {
         "damage-run" => crash::damage_run(&a),
         "fault-run" => fault::fault_run(&a),
         "workload" => workload::workload(&a),
+        "golden" => golden::golden(&a),
+        "procs-worker" => procs::worker(&a),
+        "procs-run" => procs::run(&a),
         "sched-run" => sched::sched_run(&a),
         _ => {
             eprintln!("unknown subcommand");
@@ -267,7 +272,7 @@ fn replay(a: &Args) -> i32 {
 // ------------------------------------------------------------------------------------------
 
 /// thin handle on the global recorder (rec.rs)
-struct Rec {}
+pub struct Rec {}
 impl Rec {
     fn ev(&mut self, v: Value) {
         rec::emit(v);
@@ -289,29 +294,29 @@ fn op_json(t: i64, c: &str, p: &[i64], k: i64, v: i64, lk: &str, lo: i64, hk: &s
     json!({"ev":"op","a":"op","t":t,"c":c,"p":p,"k":k,"v":v,"lk":lk,"lo":lo,"hk":hk,"hi":hi})
 }
 
-struct Driver<'a> {
-    rng: StdRng,
-    world: World,
-    rec: &'a mut Rec,
-    nk: i64,
-    nv: i64,
-    maxdepth: usize,
-    buckets: BTreeSet<Vec<i64>>, // shadow knowledge used only to bias choices
-    writer: Option<i64>,
-    readers: Vec<i64>,
-    next_t: i64,
-    readback: bool,
+pub struct Driver<'a> {
+    pub rng: StdRng,
+    pub world: World,
+    pub rec: &'a mut Rec,
+    pub nk: i64,
+    pub nv: i64,
+    pub maxdepth: usize,
+    pub buckets: BTreeSet<Vec<i64>>, // shadow knowledge used only to bias choices
+    pub writer: Option<i64>,
+    pub readers: Vec<i64>,
+    pub next_t: i64,
+    pub readback: bool,
     /// true: the file is pre-sized, readers may stay open across writer commits;
     /// false: the file starts at 4 pages and grows, so (single thread!) no reader may be
     /// open while a writer commits -- growth would wait for the reader forever (documented)
-    presized: bool,
+    pub presized: bool,
     /// number of successful commits so far; with `states` a dump of the committed content is
     /// recorded after every commit (the reference for crash / fault outcomes)
-    commits: i64,
-    states: bool,
-    max_readers: usize,
-    hashes: bool,
-    p_rollback: u32,
+    pub commits: i64,
+    pub states: bool,
+    pub max_readers: usize,
+    pub hashes: bool,
+    pub p_rollback: u32,
 }
 
 impl<'a> Driver<'a> {
@@ -421,7 +426,7 @@ impl<'a> Driver<'a> {
         }
     }
 
-    fn begin(&mut self, w: bool) -> Option<i64> {
+    pub fn begin(&mut self, w: bool) -> Option<i64> {
         let t = self.next_t;
         self.next_t += 1;
         let res = self.world.begin(t, w);
@@ -438,7 +443,7 @@ impl<'a> Driver<'a> {
         }
     }
 
-    fn end(&mut self, t: i64, commit: bool) -> Value {
+    pub fn end(&mut self, t: i64, commit: bool) -> Value {
         let is_writer_commit = commit && Some(t) == self.writer;
         if !is_writer_commit {
             self.hash_event("before-end");
@@ -542,7 +547,7 @@ impl<'a> Driver<'a> {
         self.do_op(op_json(t, c, &p, k, 0, "U", 0, "U", 0));
     }
 
-    fn run(&mut self, len: usize) {
+    pub fn run(&mut self, len: usize) {
         let mut steps = 0usize;
         while steps < len {
             steps += 1;
@@ -651,7 +656,7 @@ impl<'a> Driver<'a> {
         }
     }
 
-    fn resync(&mut self, t: i64) {
+    pub fn resync(&mut self, t: i64) {
         let mut stack: Vec<Vec<i64>> = vec![vec![]];
         while let Some(p) = stack.pop() {
             let c = if p.is_empty() { "buckets" } else { "scan" };
@@ -672,7 +677,7 @@ impl<'a> Driver<'a> {
 
 /// the whole file, decoded by the independent parser, for comparison with the state the
 /// specification reconstructed from the write events
-fn emit_parse(path: &std::path::Path, ps: u64, prof: &Profile) {
+pub fn emit_parse(path: &std::path::Path, ps: u64, prof: &Profile) {
     let data = std::fs::read(path).unwrap_or_default();
     let fv = parse::parse_file(&data, ps, prof);
     let metas: Vec<Value> =
